@@ -169,6 +169,7 @@ func c05Run(c *Ctx) {
 		}
 		if multi && r.Chance(2, 3) {
 			focus.EnvDelim = []string{",", ";"}[r.Intn(2)]
+			focus.EnvDelimViaAPI = r.Chance(1, 3)
 		}
 	}
 	for i := 0; i < ndef; i++ {
@@ -194,6 +195,22 @@ func c05Run(c *Ctx) {
 	if b.Err != nil {
 		c.Violate("setup-error", "declaration rejected: %v", b.Err)
 		return
+	}
+	if focus.EnvDelimViaAPI {
+		// (a program that binds environment variables itself: it walks the options and assigns key and delimiter)
+		var fo *flags.Option
+		if focus.Cmd.FC != nil {
+			fo = focus.Cmd.FC.Group.FindOptionByLongName(d.FullLong(focus))
+		}
+		if fo == nil || fo.Field().Name != focus.Field {
+			focus.EnvDelimViaAPI = false
+			b = d.Build()
+			if b.Err != nil {
+				return
+			}
+		} else {
+			fo.EnvDefaultDelim = focus.EnvDelim
+		}
 	}
 	if isBool && pre {
 		focus.Val.SetBool(true)
